@@ -904,12 +904,13 @@ class OneToOne(dict):
         if isinstance(dict_or_iterable, dict):
             for val in dict_or_iterable.values():
                 hash(val)
-                keys_vals = list(dict_or_iterable.items())
+            keys_vals = list(dict_or_iterable.items())
         else:
-            for key, val in dict_or_iterable:
+            # may be a one-shot iterator: materialize it exactly once
+            keys_vals = list(dict_or_iterable)
+            for key, val in keys_vals:
                 hash(key)
                 hash(val)
-                keys_vals = list(dict_or_iterable)
         for val in kw.values():
             hash(val)
         keys_vals.extend(kw.items())
